@@ -41,7 +41,7 @@ contract("time.time", external=True, params={}, returns="Opaque[Time]", note="cl
 contract("ChangeSet.do", source=M + "ChangeSet.do", params={"self": "ChangeSet", "job_set": "BaseJobSet"},
          requires=["0 <= faults and faults <= 1"],
          modifies=["tree", "faults", "ChangeSet.time[*]"],
-         ensures=["tree == AS(self.changes, len(self.changes), old(tree))"],
+         ensures=["tree == AS(self.changes, len(self.changes), old(tree))", "not is_none(self.time)"],
          raises={"Exception": {"ensures": ["tree == old(tree)"]}},
          locals={"done": "Seq[Change]"},
          loops={1: {"index": "i", "inv": ["done == self.changes[0:i]", "tree == AS(self.changes, i, old(tree))", "faults == old(faults)"]},
@@ -67,16 +67,19 @@ contract("function", abstract=True, params={"self": "Change"}, modifies=["tree",
          ensures=["tree == apply(self, old(tree))", "faults == old(faults)"],
          raises={"Exception": {"ensures": ["tree == old(tree)", "old(faults) >= 1", "faults == old(faults) - 1"]}},
          note="undecorated leaf do/undo: proved per leaf class over the file-system model (C11 sidecar)")
-contract("BaseJobSet.started_job", abstract=True, params={"self": "BaseJobSet", "name": "Str"}, modifies=["faults"],
-         ensures=["faults == old(faults)"],
-         raises={"InterruptedTaskError": {"ensures": ["old(faults) >= 1", "faults == old(faults) - 1"]}},
+ghost("started", "Int")
+ghost("finished", "Int")
+contract("BaseJobSet.started_job", abstract=True, params={"self": "BaseJobSet", "name": "Str"}, modifies=["faults", "started"],
+         ensures=["faults == old(faults)", "started == old(started) + 1"],
+         raises={"InterruptedTaskError": {"ensures": ["old(faults) >= 1", "faults == old(faults) - 1", "started == old(started)"]}},
          note="a stopped task handle interrupts at the start of a job; no effect on the tree (JobSet.started_job is verified in c10_taskhandle.py)")
-contract("BaseJobSet.finished_job", abstract=True, params={"self": "BaseJobSet"}, modifies=[],
+contract("BaseJobSet.finished_job", abstract=True, params={"self": "BaseJobSet"}, modifies=["finished"], ensures=["finished == old(finished) + 1"],
          note="finishing a job never raises (JobSet.finished_job / NullJobSet.finished_job verified in c10_taskhandle.py)")
 contract("_handle_job_set.call", source=M + "_handle_job_set.call", params={"self": "Change", "job_set": "BaseJobSet"},
-         requires=["0 <= faults"], modifies=["tree", "faults"],
-         ensures=["tree == apply(self, old(tree))"],
-         raises={"Exception": {"ensures": ["tree == old(tree)", "old(faults) >= 1"]}})
+         requires=["0 <= faults"], modifies=["tree", "faults", "started", "finished"],
+         ensures=["tree == apply(self, old(tree))", "started == old(started) + 1", "finished == old(finished) + 1"],
+         raises={"Exception": {"ensures": ["tree == old(tree)", "old(faults) >= 1", "finished == old(finished)"]}},
+         note="one job is announced before the leaf's effect and reported finished after it; a failure reports nothing finished")
 
 # ---- bounded stand-in (B3): real leaf changes on a real temp project, one injected fault ----------
 from bounded import c10_faults
